@@ -284,15 +284,16 @@ def getFontID (r : Reg) (s : Style) : Except Err (Option Nat × Style) :=
     | .error e => .error e
     | .ok (xf, f') => .ok (r.fonts.findIdx? (· == xf), { s with font := some f' })
 
-/-- styles.go `newFills(style, true)`; `none` = nil (unknown fill type) -/
+/-- styles.go `newFills(style, true)`; `none` = nil (no fill, unknown fill type, out-of-range pattern,
+malformed gradient: no fill is created) -/
 def newFills (fl : Fill) : Option XFill :=
   if fl.typ = "gradient".toList then
-    if fl.colors.length ≠ 2 ∨ fl.shading < 0 ∨ fl.shading > 16 then some .empty
+    if fl.colors.length ≠ 2 ∨ fl.shading < 0 ∨ fl.shading > 16 then none
     else match fl.colors with
       | [a, b] => some (.gradient fl.shading.toNat (paletteColor a) (paletteColor b))
-      | _ => some .empty
+      | _ => none
   else if fl.typ = "pattern".toList then
-    if fl.pattern > 18 ∨ fl.pattern < 0 then some .empty
+    if fl.pattern > 18 ∨ fl.pattern < 0 then none
     else match Facts.C17.styleFillPatterns[fl.pattern.toNat]? with
       | none => none  -- index out of range: guarded by `patterns_cover_guard`
       | some p => match fl.colors with
@@ -339,6 +340,16 @@ def isLangNumFmt (id : Int) : Bool := inRanges id Facts.C17.langRanges
 
 def numFmtList (r : Reg) : List XNumFmt := match r.numFmts with | some (l, _) => l | none => []
 
+def dpString (dp : Option Int) : Str :=
+  match dp with
+  | some d => if d > 0 then '0' :: '.' :: List.replicate d.toNat '0' else ['0']
+  | none => ['0']
+
+/-- the currency format code `newNumFmt` builds -/
+def currencyCode (fc : Str) (s : Style) : Str :=
+  let fc1 := if s.decimalPlaces.isSome then replaceAll "0.00".toList (dpString s.decimalPlaces) fc else fc
+  if s.negRed then fc1 ++ ";[Red]".toList ++ fc1 else fc1
+
 /-- styles.go `getNumFmtID`: the id as Go's `int` — `-1` "does not exist" (read as General by the xf
 lookup), `Facts.C17.currencyUnregisteredId` for a currency format whose code is not stored yet (matches
 no xf: the index of a currency format is never compared with stored numFmtIds) -/
@@ -346,8 +357,8 @@ def getNumFmtID (r : Reg) (s : Style) : Int :=
   if (builtIn s.numFmt).isSome then s.numFmt
   else if inRanges s.numFmt Facts.C17.getNumFmtRanges then s.numFmt
   else match currency s.numFmt with
-    | some code =>
-      match (numFmtList r).find? (·.code == code) with
+    | some fc =>
+      match (numFmtList r).find? (·.code == currencyCode fc s) with
       | some nf => (nf.id : Int)
       | none => Facts.C17.currencyUnregisteredId
     | none => -1
@@ -362,16 +373,6 @@ def setCustomNumFmt (r : Reg) (c : Str) : Reg × Nat :=
   let id := (l.foldl (fun m nf => if m < nf.id then nf.id else m) 163) + 1
   ({ r with numFmts := some (l ++ [⟨id, c⟩], l.length + 1) }, id)
 
-def dpString (dp : Option Int) : Str :=
-  match dp with
-  | some d => if d > 0 then '0' :: '.' :: List.replicate d.toNat '0' else ['0']
-  | none => ['0']
-
-/-- the currency format code `newNumFmt` builds -/
-def currencyCode (fc : Str) (s : Style) : Str :=
-  let fc1 := if s.decimalPlaces.isSome then replaceAll "0.00".toList (dpString s.decimalPlaces) fc else fc
-  if s.negRed then fc1 ++ ";[Red]".toList ++ fc1 else fc1
-
 /-- styles.go `newNumFmt` (+ `setLangNumFmt`) -/
 def newNumFmt (r : Reg) (s : Style) : Except Err (Reg × Nat) :=
   match s.customNumFmt with
@@ -384,13 +385,14 @@ def newNumFmt (r : Reg) (s : Style) : Except Err (Reg × Nat) :=
     match currency s.numFmt with
     | none => .ok (r, if isLangNumFmt s.numFmt then s.numFmt.toNat else 0)
     | some fc =>
-      let code := currencyCode fc s
       match r.numFmts with
-      | none => .ok ({ r with numFmts := some ([⟨164, code⟩], 1) }, 164)
+      | none => .ok ({ r with numFmts := some ([⟨164, currencyCode fc s⟩], 1) }, 164)
       | some (l, cnt) =>
-        match l.getLast? with
-        | none => .error .panic   -- `NumFmt[len-1]` on an empty, non-nil list
-        | some last => .ok ({ r with numFmts := some (l ++ [⟨last.id + 1, code⟩], cnt + 1) }, last.id + 1)
+        -- the format code is stored already: reuse its id
+        match l.find? (·.code == currencyCode fc s), l.getLast? with
+        | some nf, _ => .ok (r, nf.id)
+        | none, none => .error .panic   -- `NumFmt[len-1]` on an empty, non-nil list
+        | none, some last => .ok ({ r with numFmts := some (l ++ [⟨last.id + 1, currencyCode fc s⟩], cnt + 1) }, last.id + 1)
 
 /-! ### xf lookup (styles.go `getXfIDFuncs`, `getStyleID`) -/
 
@@ -399,7 +401,6 @@ def zeroOrAbsent (i : Option Nat) : Bool := i == none || i == some 0
 
 def xfNumFmt (numFmtID : Int) (xf : Xf) (s : Style) : Bool :=
   if s.customNumFmt.isNone ∧ numFmtID = -1 then xf.numFmtId == some 0
-  else if s.negRed || (match s.decimalPlaces with | some d => d != 2 | none => false) then false
   else if numFmtID < 0 then false
   else xf.numFmtId == some numFmtID.toNat
 
@@ -416,7 +417,7 @@ def xfFont (fontID : Option Nat) (xf : Xf) (s : Style) : Bool :=
     | none => false
 
 def xfFill (fillID : Option Nat) (xf : Xf) (s : Style) : Bool :=
-  if s.fill.typ = [] then zeroOrAbsent xf.fillId && offOrAbsent xf.applyFill
+  if (newFills s.fill).isNone then zeroOrAbsent xf.fillId && offOrAbsent xf.applyFill
   else match fillID with
     | some n => xf.fillId == some n && xfApplied n xf.applyFill
     | none => false
@@ -822,19 +823,19 @@ def normFont (defaultFamily : Str) (f : Font) : Font :=
 
 /-- normalised fill of a request; `none` = the workbook's default fill (entry 0): valid pattern /
 gradient fills keep pattern index, shading and (normalised) colours — one colour for a pattern,
-two for a gradient; an out-of-range pattern or malformed gradient is dropped (`Fill{}`); no fill
-and unknown fill types give the default -/
+two for a gradient; no fill, unknown fill types, an out-of-range pattern and a malformed gradient
+give the default (no fill is created for them) -/
 def normFill (fl : Fill) : Option Fill :=
   if fl.typ = "gradient".toList then
     match fl.colors with
     | [a, b] =>
       if 0 ≤ fl.shading ∧ fl.shading ≤ 16 then some ⟨"gradient".toList, 0, [normColor a, normColor b], fl.shading⟩
-      else some Fill.zero
-    | _ => some Fill.zero
+      else none
+    | _ => none
   else if fl.typ = "pattern".toList then
     if 0 ≤ fl.pattern ∧ fl.pattern ≤ 18 then
       some ⟨"pattern".toList, fl.pattern, (match fl.colors with | [] => [] | c :: _ => [normColor c]), 0⟩
-    else some Fill.zero
+    else none
   else none
 
 end Spec
